@@ -7,6 +7,7 @@ import json
 from concurrent.futures import ThreadPoolExecutor
 from pathlib import Path
 
+from common import prune_cache as common_prune
 from common import CACHE, MachineryError, NCPU, WORK, printed, run_tlc, spec_hash, tlc_error_excerpt
 
 CFG = """CONSTANTS Mode = "{mode}"
@@ -52,6 +53,7 @@ def shapes(n: int, m: int) -> tuple[Path, dict]:
     CACHE.mkdir(exist_ok=True)
     key = _key(mode="shapes", n=n, m=m)
     p, meta = CACHE / f"shapes-{key}.ndjson", CACHE / f"shapes-{key}.meta.json"
+    common_prune("shapes", key)
     if p.exists() and meta.exists():
         return p, json.loads(meta.read_text())
     cfg = _cfg(f"shapes-{n}-{m}", mode="shapes", n=n, m=m, seed=0, variants=1, generic=1, corners=0, family="base",
@@ -74,6 +76,7 @@ def cases(n: int, m: int, seed: int, variants: int, generic: int, corners: int, 
     CACHE.mkdir(exist_ok=True)
     key = _key(mode="cases", n=n, m=m, seed=seed, v=variants, g=generic, c=corners, f=family)
     p, meta = CACHE / f"cases-{key}.ndjson", CACHE / f"cases-{key}.meta.json"
+    common_prune("cases", key)
     if p.exists() and meta.exists():
         return [json.loads(l) for l in p.open()], json.loads(meta.read_text())
     sp, sinfo = shapes(n, m)
